@@ -338,6 +338,15 @@ fn handle_established(
             wake_write = true;
         }
 
+        // Every segment that occupies sequence space is answered with an
+        // ACK, whether or not it is accepted below: a duplicate (data,
+        // FIN, or the SYN-ACK of a handshake whose final ACK was lost)
+        // means the peer never saw our ACK, and nothing else would ever
+        // repeat it.
+        if !s.payload.is_empty() || s.flags.fin || s.flags.syn {
+            send_ack = true;
+        }
+
         // Data: accept if it lands exactly at rcv_nxt and fits under
         // the receive cap. Gaps, overlaps, and overruns all drop.
         let tcb = st.tcb.as_mut().unwrap();
